@@ -512,7 +512,7 @@ type inconclusiveSig struct{ msg string }
 func inconclusive(msg string) inconclusiveSig { return inconclusiveSig{msg} }
 
 type PathOutcome struct {
-	Kind   string // "ok", "end", "crash", "unsupported", "inconclusive", "deadlock"
+	Kind   string // "ok", "end", "crash", "unsupported", "inconclusive", "deadlock", "livelock"
 	Msg    string
 	Pos    string
 	Stacks string
@@ -554,6 +554,9 @@ func (in *Interp) runPath(entry *ssa.Function) (out PathOutcome) {
 	}()
 	main := in.newG(nil, &FuncV{Fn: entry}, nil, "entry")
 	var sleep []Trans
+	pathSeen := map[hash128]int{}
+	var soloG *G
+	soloRun, schedPoints := 0, 0
 	for {
 		// local phase: run everything up to its next visible operation
 		for progress := true; progress; {
@@ -581,6 +584,27 @@ func (in *Interp) runPath(entry *ssa.Function) (out PathOutcome) {
 			in.cur = main
 			return PathOutcome{Kind: "deadlock", Msg: "no transition enabled and harness not finished", Stacks: in.allStacks()}
 		}
+		// livelock bookkeeping: count consecutive scheduling points at which exactly one
+		// transition of one goroutine is enabled and no timer is armed (nothing else can
+		// ever interfere): a state repeated inside such a run is an infinite execution.
+		solo := len(ts) == 1 && ts[0].g != nil && ts[0].g2 == nil
+		if solo {
+			for _, t := range in.st.timers {
+				if t.Armed {
+					solo = false
+					break
+				}
+			}
+		}
+		if solo && (soloG == nil || soloG == ts[0].g) {
+			soloG = ts[0].g
+			soloRun++
+		} else if solo {
+			soloG, soloRun = ts[0].g, 1
+		} else {
+			soloG, soloRun = nil, 0
+		}
+		schedPoints++
 		ts = in.reduce(ts)
 		if !in.cfg.NoSleep && len(sleep) > 0 {
 			var cands []Trans
@@ -613,6 +637,11 @@ func (in *Interp) runPath(entry *ssa.Function) (out PathOutcome) {
 			keepIdx, filt = p.Keep, p.Filt
 		} else if caching {
 			h, chanIx := in.stateHash()
+			if at, ok := pathSeen[h]; ok && soloRun > 0 && schedPoints-at < soloRun {
+				in.cur = main
+				return PathOutcome{Kind: "livelock", Msg: fmt.Sprintf("goroutine %s repeats the same state forever (cycle of %d steps) while every other goroutine is blocked and the harness has not finished", soloG.name, schedPoints-at), Stacks: in.allStacks()}
+			}
+			pathSeen[h] = schedPoints
 			var sigs []uint64
 			for _, z := range sleep {
 				sigs = append(sigs, in.transSig(z, chanIx))
